@@ -20,7 +20,7 @@ import (
 
 type History struct {
 	Data   gen.Recipe `json:"data"`
-	Ops    []gen.Op   `json:"ops"`              // W/F, optionally a final C
+	Ops    []gen.Op   `json:"ops"`               // W/F, optionally a final C
 	FailAt int        `json:"fail_at,omitempty"` // destination fails at its k-th call (0 = never)
 	Short  int        `json:"short,omitempty"`
 	Hdr    *GzHdr     `json:"hdr,omitempty"` // gzip: header fields assigned before the first call
